@@ -113,6 +113,8 @@ for cls, cmpname in (("MinValue", "le"), ("MaxValue", "ge")):
             # C07 converse (scope: copyable, totally ordered values): a holding snapshot is never failed by inline-snapshot
             "holding-comparison-not-counted [C07]": "implies(self._old_value is not undefined and T(" + cmp("self._old_value", "other") + "),"
                                                     " state.incorrect_values == old(state.incorrect_values))",
+            # C02/C09: with create/fix/update approved (or an empty snapshot) the comparison is made to succeed
+            "made-to-succeed-when-approved [C02,C09]": "implies(" + IGNORE + ", T(ret))",
             "Inv-member [C05,C14,C01]": "same(self._new_value, old(self._new_value)) or same(self._new_value, deepcopy(other))",
         },
         safety_props=["C18"],
@@ -134,6 +136,8 @@ for variant, newty in (("first", "=Ellipsis"), ("later", "List[Val]")):
         "failing-membership-counted [C07]": "implies(self._old_value is not undefined and not T(contains(self._old_value, item)),"
                                             " state.incorrect_values > old(state.incorrect_values))",
         "plain-result-without-flags [C06]": "implies(" + NOFLAGS + " and self._old_value is not undefined, same(ret, contains(self._old_value, item)))",
+        # C02/C09: with create/fix/update approved (or an empty snapshot) the comparison is made to succeed so that the test continues
+        "made-to-succeed-when-approved [C02,C09]": "implies(" + IGNORE + ", T(ret))",
         "old-value-untouched [C14,C05]": "same(self._old_value, old(self._old_value))",
     }
     if variant == "first":
@@ -530,4 +534,52 @@ contract(
            "props": ["C05", "C14", "C01"], "frame_props": ["C14"], "light_feasibility": True},
     safety_props=["C18"],
     assumes=["PS5"],
+)
+
+# --------------------------------------------------------------------------------------------
+# CollectionValue._get_changes
+
+def cv_yield_check(I, v, node, env):
+    """own yields of CollectionValue._get_changes: at most one change per old element (C18: edits never overlap),
+    Delete(trim) only for elements that were never tested, Replace(update) keeps the value."""
+    if not (isinstance(v, _Obj) and v.rec is None):
+        return
+    kind = v.cls.rsplit(".", 1)[-1]
+    if kind in ("Delete", "Replace"):
+        k = env.lookup("k")
+        last = I.ghost["last_changed"]
+        from pyvc.core import zint as _zint
+
+        I.oblige("post", "one-change-per-element [C18,C05]", _zint(last) < _zint(k))
+        I.ghost["last_changed"] = k
+        if kind == "Delete":
+            I.oblige("post", "trims-only-untested-members [C05]", _z3.BoolVal(v.fields["flag"] == "trim"))
+        else:
+            I.oblige("post", "update-keeps-the-member [C05,C08]", _z3.And(_z3.BoolVal(v.fields["flag"] == "update"), I.zbool(I.identical(v.fields["new_value"], v.fields["old_value"]))))
+    elif kind == "ListInsert":
+        from pyvc.core import zint as _zint
+
+        I.oblige("post", "fix-appends-behind-the-old-members [C05,C18]", _z3.And(_z3.BoolVal(v.fields["flag"] == "fix"),
+                 _zint(v.fields["position"]) == _zint(I.call_function(I.lookup("len", env), [env.lookup("self").fields["_old_value"]], {}))))
+
+
+def _cv_new_values(I, n, env):
+    from pyvc.types import Opaque as _Op
+
+    r = _z3.Bool(I.ctx.fresh_name("has_new_members"))
+    return _Obj("newvalues", {"__len__": _SV(_z3.If(r, _z3.IntVal(1), _z3.IntVal(0)), _pty("Int"))})
+
+
+contract(
+    CV + ".CollectionValue._get_changes",
+    params={"self": "@CGValue"},
+    shapes={"CGValue": Shape(CV + ".CollectionValue", {"_old_value": "List[Val]", "_new_value": "List[Val]", "_ast_node": "Node", "_context": "@Context"})},
+    requires={"denotes": "implies(self._ast_node is not None, isinstance_node(self._ast_node, 'List') and len(self._ast_node.elts) == len(self._old_value))"},
+    extern_patterns={"[v for v in self._new_value if v not in self._old_value]": _cv_new_values,
+                     "[self._file._value_to_code(v) for v in new_values]": lambda I, n, env: Opaque("codes")},
+    loops={0: Loop(index="k", ghost_modifies=["last_changed"], inv={"last-change-is-earlier": "last_changed < k"})},
+    ensures={"terminates-normally [C18]": "True"},
+    frame=[],
+    ghost={"vars": {"last_changed": "=-1"}, "yield_check": cv_yield_check, "none_list_ty": "Node", "props": ["C05", "C08"], "frame_props": ["C14"]},
+    safety_props=["C18"],
 )
